@@ -633,12 +633,12 @@ func (w *verifC14World) snapshot() []*verifC14Scope {
 
 // genOp draws the next history step: a single-scope mutation, a set of
 // concurrent mutations on distinct scopes, or a reopen.
-func (w *verifC14World) genOp(rt *rapid.T, allowBad, allowReopen, allowFail bool) verifC14Op {
+func (w *verifC14World) genOp(rt *rapid.T, allowBad bool, reopenPct int, allowFail bool) verifC14Op {
 	k := rapid.IntRange(0, 99).Draw(rt, "step")
 	switch {
-	case k < 8 && allowReopen:
+	case k < reopenPct:
 		return verifC14Op{Kind: "reopen", Tag: "reopen", Open: verifC14GenOpen(rt)}
-	case k < 22 && len(w.M) >= 2:
+	case k < reopenPct+14 && len(w.M) >= 2:
 		op := verifC14Op{Kind: "par", Tag: "par"}
 		for si, m := range w.M {
 			if len(op.Par) >= 2 && rapid.Bool().Draw(rt, "skipScope") {
@@ -1070,7 +1070,7 @@ func TestVerifC14Model(t *testing.T) {
 		var sawOverwrite, sawCompact, sawReopenAfter, sawPar, sawFail, sawBad, sawInstall, sawReplace bool
 		var trace []string
 		for i := 0; i < n; i++ {
-			op := w.genOp(rt, true, true, true)
+			op := w.genOp(rt, true, 8, true)
 			trace = append(trace, op.String())
 			k.Key(op.String())
 			if op.Kind == "reopen" {
